@@ -46,6 +46,7 @@ struct stream {
   size_t http_end; /* WS: end of the HTTP upgrade request */
   int expect_close; /* the stream must end with the session closed */
   int expect_msgs;  /* number of request messages that must reach the handler */
+  unsigned csm_max; /* >0: the server is configured with this Max-Message-Size (coap_context_set_csm_max_message_size) */
 };
 
 static size_t
@@ -218,7 +219,7 @@ stream_begin(struct stream *s, const char *name, int ws) {
   stream_add(s, csm);
 }
 
-#define NSTREAMS 10
+#define NSTREAMS 11
 static struct stream streams[NSTREAMS];
 static int nstreams;
 
@@ -268,6 +269,26 @@ build_streams(void) {
     uint8_t big[] = {0xF1, 0x10, 0x00, 0x00, 0x00, 0x01, 0xAA, 0xB1, 't', 0xFF, 'x', 'y'};
     memcpy(s->b + s->n, big, sizeof big);
     s->n += sizeof big;
+  }
+  s->expect_msgs = 1;
+  s->expect_close = 1;
+  /* T5: declared length above the CONFIGURED maximum (600) although the peer's own CSM advertises 4096: must close */
+  s = &streams[nstreams++];
+  memset(s, 0, sizeof *s);
+  snprintf(s->name, sizeof s->name, "tcp-over-configured");
+  s->csm_max = 600;
+  {
+    /* CSM with Max-Message-Size (option 2) = 4096, then a request declaring 900 bytes of options + payload */
+    static const uint8_t csm[] = {0x30, 0xE1, 0x22, 0x10, 0x00};
+    memcpy(s->b, csm, sizeof csm);
+    s->n = sizeof csm;
+    stream_add(s, mk(0x01, 1, 0, 0));
+    uint8_t hdr[] = {0xE1, (uint8_t)((900 - 269) >> 8), (uint8_t)(900 - 269), 0x02, 0xAB, 0xB1, 't', 0xFF};
+    memcpy(s->b + s->n, hdr, sizeof hdr);
+    s->n += sizeof hdr;
+    for (int i = 0; i < 900 - 3; i++)
+      s->b[s->n++] = (uint8_t)('a' + i % 26);
+    stream_add(s, mk(0x01, 2, 0, 0)); /* must not be delivered any more */
   }
   s->expect_msgs = 1;
   s->expect_close = 1;
@@ -430,6 +451,8 @@ seg_begin(const struct stream *st, struct result *res) {
   sctx = coap_new_context(NULL);
   ns_register_ctx(sctx);
   coap_context_set_max_token_size(sctx, 300);
+  if (st->csm_max)
+    coap_context_set_csm_max_message_size(sctx, st->csm_max);
   coap_register_event_handler(sctx, evh);
   coap_address_t sa, ca;
   ns_addr(&sa, 1, st->ws ? 80 : 5683);
@@ -922,7 +945,7 @@ main(int argc, char **argv) {
   vx_ev_int("reader_state_transitions", (long long)vxp_counter(2));
   vx_ev_rule("a real libcoap TCP / WebSocket server session fed a fixed valid byte stream (CSM or HTTP upgrade + 3-5 messages covering TCP length "
              "forms 0-12/13/14, tokens 0/8/ext-1B/ext-2B and their cross combinations, WS 7/16/64-bit masked frames, a read that fills the 1472-byte buffer, an oversize "
-             "declared length, an over-long handshake line, legal handshake lines of 147 and 159 bytes, a short WebSocket stream) under (1) every placement of <= k "
+             "declared length, a declared length above a configured Max-Message-Size of 600, an over-long handshake line, legal handshake lines of 147 and 159 bytes, a short WebSocket stream) under (1) every placement of <= k "
              "cuts (k = 2, thorough 3 for streams <= 330 bytes; the long-line streams k = 1 in quick), byte-wise and single-chunk, (2) all "
              "2^(N-1) segmentations via BFS over reader states: in quick for the streams tcp-short, tcp-long, tcp-cross, tcp-oversize, ws-small, "
              "ws-longline; in thorough for all streams (tcp-fullbuf about 80 s, ws-frames about 750 s); a search that meets the deadline or "
